@@ -1293,6 +1293,11 @@ func _expandGrid(_ string, _ pr.Shortand, tokens []Token) (out []namedTokens, _ 
 		val = []Token{autoTrackToken, dense}
 	}
 
+	if len(templates[autoTrack]) == 0 {
+		// omitted <'grid-auto-rows'> or <'grid-auto-columns'>
+		templates[autoTrack] = []Token{auto}
+	}
+
 	names := [2]string{rowT: "row", columnT: "column"}
 	return []namedTokens{
 		{pr.PGridAutoFlow, val},
